@@ -17,8 +17,21 @@ SIGS = {'completed-twice', 'finished-run-resurrected', 'action-executed-twice', 
 
 
 def scenarios(ctx: Ctx, res: Result):
+    import json
+    from harness.core import CORPUS
+    for f in sorted((CORPUS / 'C05').glob('*.json')):        # witnesses of past findings run first
+        res.count('corpus')
+        yield json.loads(f.read_text())['scenario']
     for sc in gc.merged_backlog_family():
         res.count('merged_backlog_family')
+        yield sc
+    for sc in gc.singleton_merged_family():
+        res.count('singleton_merged_family')
+        yield sc
+    for _ in range(600 if ctx.thorough else 80):
+        res.count('random_singleton')
+        sc = gc.fault_scenario(ctx.rng)
+        sc['phens'] = ctx.rng.choice((gc.SING, gc.SING2))
         yield sc
     fam = list(gc.conflict_family())
     for sc in ctx.rng.sample(fam, len(fam) if ctx.thorough else 60):
@@ -45,7 +58,7 @@ def search(ctx: Ctx) -> Result:
 
 SPEC = PropSpec(
     prop='C05', translators=[], run=run, search=search,
-    rule='merged-backlog family (one failed or unacknowledged send, then the run finishes, then the merged SYNC; 2 and 3 instances), '
+    rule='singleton families (a merged SYNC naming the sender\'s finished run and the receiver\'s adopted run; random fault schedules over singleton patterns), merged-backlog family (one failed or unacknowledged send, then the run finishes, then the merged SYNC; 2 and 3 instances), '
          'the C04 racing-pair family, and seeded random schedules with and without link faults and clock advances (8-40 ops, 2-3 '
          'instances); the oracle runs after every elementary step including each pass and delivery inside sync/heal',
     trusted_base=['harness/cluster.py in-memory network double'],
